@@ -128,9 +128,14 @@ class Synth:
             b = s.encode("utf-8", "surrogatepass")
             return self.tc(f, flag) + le32(len(b)) + b, "text:%s:%s" % (f, "ascii" if ascii_ok else ("surrogate" if any(0xD800 <= ord(c) <= 0xDFFF for c in s) else "nonascii"))
         b = s.encode("ascii")
+        lab = "text:" + f
+        if r.random() < 0.15 and len(b) < 250:
+            # the ASCII forms with bytes >= 0x80: no compiler writes that, but marshal accepts it (reads the bytes as Latin-1)
+            b = b + r.choice([b"\xe9", b"\xff\x80", b"\xc3\xa9"])
+            lab += ":high-bytes"
         if f in ("a", "A"):
-            return self.tc(f, flag) + le32(len(b)) + b, "text:" + f
-        return self.tc(f, flag) + bytes([len(b)]) + b, "text:" + f
+            return self.tc(f, flag) + le32(len(b)) + b, lab
+        return self.tc(f, flag) + bytes([len(b)]) + b, lab
 
     def gen_singleton(self):
         ch = self.rng.choice("NTF.S")
